@@ -63,8 +63,13 @@ class World:
             if op.get("cks") == "wrong":
                 true = hashlib.sha256(self.contents[op["c"]]).hexdigest()
                 kw.update(checksum=("0" if true[0] != "0" else "1") + true[1:], checksum_algorithm=op.get("cks_algo", "sha256"))
+            if op.get("cks") == "right":
+                kw.update(checksum=hashlib.new(op.get("cks_algo", "sha256"), self.contents[op["c"]]).hexdigest(),
+                          checksum_algorithm=op.get("cks_algo", "sha256"))
             if op.get("size") == "wrong":
                 kw.update(expected_object_size=len(self.contents[op["c"]]) + 1)
+            if op.get("size") == "right":
+                kw.update(expected_object_size=len(self.contents[op["c"]]))
             if op.get("add"):
                 kw.update(additional_algorithm=op["add"])
             return call(store.store_object, op.get("pid"), self.cpaths[op["c"]], **kw)
